@@ -221,3 +221,7 @@ def check(repo, rep, tier):
   rule_guards(repo, rep)
   from . import c17
   c17.rule_no_hyper_writes(repo, rep)
+  # set_params then fit must use the new values: fit reads no state left by
+  # an earlier fit and re-assigns preprocessor_ unconditionally (typestate
+  # rules of C17)
+  c17.rule_history(repo, rep)
